@@ -22,6 +22,8 @@ From the imported module (child process, PYTHONPATH = the repository under check
   * every dataclass field with init=False starts with "_" (the decoder passes the others to the
     constructor)                                                        -> ctor_accepts_fields
   * Action.to_dict keys / Action.from_dict keys                         -> action_fields_src
+  * Action.to_dict() hands out the live context / start_event_arguments (flows.py, ast)
+                                                                        -> action_to_dict_live
 From statemachine.py::_clean_up_state:
   * the removal condition `_is_done_flow(fs) and (datetime.now() - fs.status_updated) >
     timedelta(seconds=N) and fs.activated == 0`                         -> cleanup_age_s,
@@ -186,6 +188,29 @@ print(json.dumps({"classes": classes, "enums": enums, "bad_init": bad, "spectype
 """
 
 
+FLOWS = "nemoguardrails/colang/v2_x/runtime/flows.py"
+
+
+def action_to_dict_live():
+    """Action.to_dict() returns one dict literal whose "context" / "start_event_arguments" values
+    are the LIVE attributes self.context / self.start_event_arguments (no copy, no call): the refs
+    table of encode_to_dict is keyed by id() and must only see objects that outlive the encoding."""
+    tree = TC._parse(FLOWS)
+    cls = TC._cls(tree, "Action")
+    fn = None
+    for n in cls.body:
+        if isinstance(n, ast.FunctionDef) and n.name == "to_dict":
+            fn = n
+    if fn is None:
+        raise TranslatorError("Action.to_dict not found")
+    rets = [n for n in ast.walk(fn) if isinstance(n, ast.Return)]
+    if len(rets) != 1 or not isinstance(rets[0].value, ast.Dict):
+        return False
+    d = rets[0].value
+    vals = {k.value: ast.unparse(v) for k, v in zip(d.keys, d.values) if isinstance(k, ast.Constant)}
+    return vals.get("context") == "self.context" and vals.get("start_event_arguments") == "self.start_event_arguments"
+
+
 def class_table():
     env = dict(os.environ)
     env["PYTHONPATH"] = TC.REPO
@@ -287,6 +312,7 @@ def emit():
     L.append(f"Definition action_to_dict_keys : list string := {coq_str_list(c['action_to'])}.")
     L.append(f"Definition action_from_dict_keys : list string := {coq_str_list(c['action_from'])}.")
     L.append(f"Definition action_is_dataclass : bool := {coq_bool(c['action_is_dataclass'])}.")
+    L.append(f"Definition action_to_dict_live : bool := {coq_bool(action_to_dict_live())}.")
     L.append("")
     L.append("(* statemachine.py::_clean_up_state *)")
     L.append(f"Definition cleanup_age_s : Z := {k['cleanup_age_s']}.")
